@@ -9,6 +9,10 @@ import KcpVerif.Lemmas.SysCleanRun
 import KcpVerif.Lemmas.SysProgress
 import KcpVerif.Lemmas.SysProgress2
 import KcpVerif.Lemmas.SysDrainCex
+import KcpVerif.Lemmas.SysDrainCons2
+import KcpVerif.Lemmas.SysWedgeRepaired
+import KcpVerif.Lemmas.SysDrainReturn
+import KcpVerif.Lemmas.SysDrainReturn2
 /-! C02 — eventual delivery: a healed network always drains the backlog. -/
 namespace KcpVerif.Props
 open KcpVerif KcpVerif.Gen KcpVerif.Kcp KcpVerif.Live
@@ -751,5 +755,152 @@ theorem C02_drain_refuted_prerepair : ¬ C02_drain_full_prerepair := by
   have := hT (SysC.stuckRounds T) (SysC.stuckRounds_nosend T) (by rw [hnow]; exact Nat.le_refl _)
   have := (C02_wedge_forever_prerepair (SysC.stuckRounds T)).2.1
   omega
+
+/-! ### the cross-endpoint consistency invariant, any history (repaired model)
+
+`SysC.Cons` (Lemmas/SysDrainCons.lean, SysDrainCons2.lean) is preserved by every event of the closed
+system (`SysC.cons_step`) and by every fault of the network that does not forge
+(`SysC.cons_shuffle`: any drop, duplication, reordering of what is in flight). -/
+
+open KcpVerif.Sys KcpVerif.SysC in
+/-- **Consistency after ANY history.**  Two fresh cores with one conversation id (`ConsInit`), data
+from A to B, any sequence of fair events and network faults (`NetEv`), fewer than 2^31 segments
+(`NetNoWrap`).  In the state reached: nothing panicked; A's send buffer holds exactly the sequence
+numbers `snd_una … snd_nxt − 1`; B's `rcv_nxt` is not beyond A's `snd_nxt`; and B HAS — delivered to
+its queue, or waiting in its reorder buffer — every segment A has released (below `snd_una`), every
+segment flagged `acked` in A's send buffer, and every entry of its own ack list.  So no fault pattern
+makes A forget a segment B does not have, and no acknowledgement is ever sent for a segment that is
+then dropped. -/
+theorem C02_consistency_any_history (A B : Kcp) (D t0 : Nat) (ndA ndB : Bool) (hinit : ConsInit A B)
+    (evs : List NetEv) (hrun : NetNoWrap A.snd_nxt (Sys.init A B D t0 ndA ndB) evs) :
+    (netRun (Sys.init A B D t0 ndA ndB) evs).panic = false ∧
+    Contig A.snd_nxt (netRun (Sys.init A B D t0 ndA ndB) evs).A ∧
+    o A.snd_nxt (netRun (Sys.init A B D t0 ndA ndB) evs).B.rcv_nxt ≤ o A.snd_nxt (netRun (Sys.init A B D t0 ndA ndB) evs).A.snd_nxt ∧
+    (∀ sn, o A.snd_nxt sn < o A.snd_nxt (netRun (Sys.init A B D t0 ndA ndB) evs).A.snd_una →
+      Has A.snd_nxt (netRun (Sys.init A B D t0 ndA ndB) evs).B.rcv_nxt (netRun (Sys.init A B D t0 ndA ndB) evs).B.rcv_buf sn) ∧
+    (∀ x ∈ (netRun (Sys.init A B D t0 ndA ndB) evs).A.snd_buf, x.acked = true →
+      Has A.snd_nxt (netRun (Sys.init A B D t0 ndA ndB) evs).B.rcv_nxt (netRun (Sys.init A B D t0 ndA ndB) evs).B.rcv_buf x.sn) ∧
+    (∀ a ∈ (netRun (Sys.init A B D t0 ndA ndB) evs).B.acklist,
+      Has A.snd_nxt (netRun (Sys.init A B D t0 ndA ndB) evs).B.rcv_nxt (netRun (Sys.init A B D t0 ndA ndB) evs).B.rcv_buf a.sn) := by
+  obtain ⟨gab, gba, hc⟩ := cons_netRun (p := ⟨A.snd_nxt, A.conv, 0, 0, 0⟩) evs _ [] []
+    (cons_init A B D t0 ndA ndB hinit) hrun
+  exact ⟨hc.np, hc.acon, hc.bub, hc.arel, hc.ahas, hc.back⟩
+
+/-- non-vacuity: the fault history of the wedge, replayed on the repaired model as a `NetEv` history
+(the held-back datagram is removed by one `shuffle` and re-inserted by another, the window update is
+dropped by a third) -/
+example : SysC.ConsInit SysC.wedgeA SysC.wedgeB := by decide
+
+/-! ### the wedge regression on the repaired model -/
+
+set_option maxRecDepth 200000 in
+/-- **The repaired system does not wedge on that history.**  The fault history of
+`C02_wedge_forever_prerepair`, event for event, on the repaired model (`SysC.rep1 … repState`): when
+A inputs `[ACK 2, una 2, wnd 0]` the flagged segment 2 is at the head of the send buffer and leaves it
+at once (`snd_una = 3`, send buffer empty), so after the history `WaitSnd = 0` although the window
+update was lost; and a byte written afterwards is admitted, delivered and acknowledged within 49 ms of
+the canonical schedule. -/
+theorem C02_wedge_repaired :
+    SysC.rep2.A.snd_buf = [] ∧ SysC.rep2.A.snd_una = 3 ∧
+    SysC.repState.A.waitSnd = 0 ∧ SysC.repState.got = [0, 1, 2] ∧ SysC.repState.ba = [] ∧
+    SysC.repAfter.A.waitSnd = 0 ∧ SysC.repAfter.got = [0, 1, 2, 3] ∧ SysC.repAfter.now = 1049 := by
+  decide
+
+/-! ### the phases of the progress step, arbitrary consistent states (repaired model)
+
+Each theorem is about ANY state satisfying `SysC.Cons` (which `C02_consistency_any_history` establishes
+after any fault history) and the fair system from there on. -/
+
+open KcpVerif.Sys KcpVerif.SysC in
+/-- **Phase D — the cumulative acknowledgement arrives.**  When A inputs the head datagram of the link
+B → A, its `snd_una` ends at or beyond the `una` of every frame in it. -/
+theorem C02_phase_una_arrives {p : Par} {s : State} {t0 : Nat} {frs : List Wire.Frm} {gab grest : GLink}
+    (h : Cons p s gab ((t0, frs) :: grest)) (hnw : NoWrap p.base s) (hdue : t0 ≤ s.now) :
+    ∀ fr ∈ frs, o p.base fr.una ≤ o p.base (Sys.step s .dlvA).A.snd_una := phase_D h hnw hdue
+
+open KcpVerif.Sys KcpVerif.SysC in
+/-- **Phase C — an owed acknowledgement is flushed.**  B's scheduled flush with a non-empty ack list
+puts a datagram on the link that arrives `D` later and contains a frame with `una = rcv_nxt`. -/
+theorem C02_phase_ack_flushed {p : Par} {s : State} {gab gba : GLink} (h : Cons p s gab gba) (hack : s.B.acklist ≠ []) :
+    ∃ fr0 frs0 pre post, (Sys.step s .flushB).ba = s.ba ++ pre ++ [⟨s.now + s.D, Wire.encFrames frs0⟩] ++ post ∧
+      fr0 ∈ frs0 ∧ fr0.una = s.B.rcv_nxt := phase_C h hack
+
+open KcpVerif.Sys KcpVerif.SysC in
+/-- **The return path, composed, with its bound.**  In any consistent state in which B has passed the
+sequence number with offset `U`, owes an acknowledgement and has its next flush at or before `T`
+(`now ≤ T`), in EVERY later state of the fair system whose clock is past `T + D` A's `snd_una` is
+beyond `U` — whatever datagrams (genuine, stale, duplicated) are still in flight in both directions,
+whatever A and B send and receive in between, whether the acknowledgement leaves with the scheduled
+flush or with an ACK-only flush at the end of an `Input`.  (`Ret`, `ret_step`: the acknowledgement
+is owed by B, or on its way in a datagram arriving by `T + D`, or has arrived; each event keeps it on
+that path, and a `tick` is refused while a flush or a datagram is due.) -/
+theorem C02_phase_return {p : Par} {s : State} {gab gba : GLink} (h : Cons p s gab gba) (U T : Nat)
+    (hB : U < o p.base s.B.rcv_nxt) (hack : s.B.acklist ≠ []) (hnf : s.nfB ≤ T) (hnow : s.now ≤ T)
+    (evs : List Ev) (hnw : RunNoWrap p.base s evs) (ht : T + s.D < (Sys.run s evs).now) :
+    U < o p.base (Sys.run s evs).A.snd_una :=
+  ret_done h U T (Or.inr (Or.inl ⟨hB, hack, hnf, hnow⟩)) evs hnw ht
+
+open KcpVerif.Sys KcpVerif.SysC in
+/-- **Phase A — the retransmission is emitted.**  In any consistent state, a FULL flush of A at a time
+when the timer of an un-acknowledged segment of its send buffer is due (or the segment has never been
+sent) puts a datagram on the link that arrives `D` later and contains the PUSH of that segment: no
+window, no counter and no other segment can prevent it. -/
+theorem C02_phase_retx_emitted {p : Par} {s : State} {gab gba : GLink} (h : Cons p s gab gba) (x : Seg)
+    (hx : x ∈ s.A.snd_buf) (hna : x.acked = false) (hdue : x.xmit = 0 ∨ itimediff (clk s.now) x.resendts ≥ 0) :
+    ∃ fr0 frs0 pre post, (Sys.step s .flushA).ab = s.ab ++ pre ++ [⟨s.now + s.D, Wire.encFrames frs0⟩] ++ post ∧
+      fr0 ∈ frs0 ∧ fr0.cmd.toNat = IKCP_CMD_PUSH ∧ fr0.sn = x.sn := phase_A h x hx hna hdue
+
+open KcpVerif.Sys KcpVerif.SysC in
+/-- **Phases B + C + D composed: a retransmission whose ACK was lost.**  In any consistent state in
+which a PUSH of a segment B has already delivered is on its way to B, arriving by `T2`, and B flushes at
+least every `I` ms (`Tm`): B re-acknowledges it (it is inside the window whatever the window is), the
+ACK leaves with B's next flush or with the ACK-only flush of that `Input`, and in EVERY later state of
+the fair system whose clock is past `T2 + I + D` A's `snd_una` is beyond `U` (any offset below B's
+`rcv_nxt`): A has released everything B had delivered.  Run hypothesis `RunSmall`: fewer than 2^30
+segments, receive window below 2^30. -/
+theorem C02_phase_lost_ack {p : Par} {s : State} {gab gba : GLink} (h : Cons p s gab gba) (U T2 I : Nat) (ht : Tm I s)
+    (hpush : PushOld p.base U T2 s) (evs : List Ev) (hsm : RunSmall p.base s evs)
+    (hnow : T2 + I + s.D < (Sys.run s evs).now) :
+    U < o p.base (Sys.run s evs).A.snd_una :=
+  ret2_done h U T2 I ht (Or.inr hpush) evs hsm hnow
+
+/-! ### what remains of `C02_progress_step_full` / `C02_drain_full` on the repaired model
+
+Proved, for arbitrary consistent states: the invariant after any fault history
+(`C02_consistency_any_history`); phase A as a single event (`C02_phase_retx_emitted`); phases B (for a
+segment B has delivered), C and D composed with their deadlines (`C02_phase_lost_ack`,
+`C02_phase_return`).  Not proved:
+
+1. the deadline of phase A — that A's scheduled flush falls between `resendts` and
+   `resendts + interval_A` with the head still un-acknowledged and its timer un-touched (needs an
+   element-wise relation of `parse_fastack` that keeps `resendts`/`xmit`, and `nfA ≤ now + interval_A`
+   as `Tm` for A);
+2. phase B for a segment B has NOT yet delivered: in order with room in the queue it is delivered at
+   once (`SysC.inFr_push`), but with the queue full it waits in the reorder buffer, `Recv` moves it and
+   announces the re-opened window (`C03_reopen_announced`), and the carrier is then the WINS — this needs
+   the order of `rcv_buf` in `Cons` and the `TELL` flag as a further way to owe a frame in `Ret`;
+3. zero-window probing for the queue (`C03_probe_*`), and the induction on outstanding + queued
+   segments that turns the progress step into the drain. -/
+
+/-! non-vacuity of the hypotheses of `C02_phase_return`: after `Send`, A's flush and B's `Input` (`D = 0`)
+the state is consistent (by `cons_netRun`), B has passed offset 0, owes an ACK, and flushes by t = 1010 -/
+
+instance netNoWrapDec (base : U32) : (s : Sys.State) → (evs : List SysC.NetEv) → Decidable (SysC.NetNoWrap base s evs)
+  | s, [] => by unfold SysC.NetNoWrap; infer_instance
+  | s, ev :: rest => by
+    unfold SysC.NetNoWrap
+    have := netNoWrapDec base (SysC.netStep s ev) rest
+    infer_instance
+
+def c02RetEvs : List SysC.NetEv := [.fair (.send [0]), .fair .flushA, .fair .dlvB]
+
+example : (∃ gab gba, SysC.Cons ⟨SysC.wedgeA.snd_nxt, SysC.wedgeA.conv, 0, 0, 0⟩
+      (SysC.netRun (Sys.init SysC.wedgeA SysC.wedgeB 0 1000) c02RetEvs) gab gba) ∧
+    (SysC.netRun (Sys.init SysC.wedgeA SysC.wedgeB 0 1000) c02RetEvs).B.acklist ≠ [] ∧
+    0 < SysC.o SysC.wedgeA.snd_nxt (SysC.netRun (Sys.init SysC.wedgeA SysC.wedgeB 0 1000) c02RetEvs).B.rcv_nxt ∧
+    (SysC.netRun (Sys.init SysC.wedgeA SysC.wedgeB 0 1000) c02RetEvs).nfB ≤ 1010 ∧
+    (SysC.netRun (Sys.init SysC.wedgeA SysC.wedgeB 0 1000) c02RetEvs).now ≤ 1010 :=
+  ⟨SysC.cons_netRun c02RetEvs _ [] [] (SysC.cons_init _ _ 0 1000 false false (by decide)) (by decide),
+   by decide, by decide, by decide, by decide⟩
 
 end KcpVerif.Props
